@@ -5,6 +5,7 @@ import collections, json, os, subprocess, sys
 prop, patch = sys.argv[1], os.path.abspath(sys.argv[2])
 n = int(sys.argv[3]) if len(sys.argv) > 3 else 600
 tier = sys.argv[4] if len(sys.argv) > 4 else "quick"
+os.makedirs("/tmp/x", exist_ok=True)
 wt = "/tmp/x/pw_%d" % os.getpid()
 subprocess.run(["git", "-C", "/repo", "worktree", "add", "-q", wt, "HEAD"], check=True)
 try:
